@@ -41,6 +41,10 @@ func builtinRegExpToString(call FunctionCall) Value {
 }
 
 func builtinRegExpExec(call FunctionCall) Value {
+	if !call.This.IsObject() {
+		// 15.10.6.2: the this value must be an object of class RegExp (a primitive or undefined is none).
+		panic(call.runtime.panicTypeError("Calling RegExp.exec on a non-RegExp object"))
+	}
 	thisObject := call.thisObject()
 	target := call.Argument(0).string()
 	match, result := execRegExp(thisObject, target)
